@@ -33,6 +33,7 @@ struct RunRes {
 fn step_text(s: &Step) -> String {
     match s {
         Step::Admin(a) => format!("{:?}", a),
+        Step::Respawn(w) => format!("Respawn(W{})", w),
         Step::Conv(c) => {
             let mut t = format!("Convert(W{}, {:?}, t={})", c.worker, c.api, c.t);
             if !c.inject.is_empty() {
@@ -253,6 +254,7 @@ pub fn run(opts: &Opts, only: Option<Config>) -> i32 {
     let mut sim_ns_total: u128 = 0;
     let mut det_checked = 0u64;
     let mut classes_seen: Vec<String> = Vec::new();
+    let mut nondet: Option<String> = None;
     for (cfg, n) in budgets(&opts.tier, opts.scale) {
         if let Some(o) = only {
             if o != cfg {
@@ -288,8 +290,9 @@ pub fn run(opts: &Opts, only: Option<Config>) -> i32 {
             }
             det_checked += r.det_checked;
             if let Some(i) = r.det_failed.first() {
-                eprintln!("harness error: run {} of {} is not deterministic (event logs of two executions differ)", i, cfg.name());
-                return 2;
+                if nondet.is_none() {
+                    nondet = Some(format!("run {} of {} is not deterministic (event logs of two executions of the same plan differ)", i, cfg.name()));
+                }
             }
             for s in r.samples {
                 if samples.len() < 6 && samples.iter().filter(|x: &&Value| x["config"] == s["config"]).count() < 2 {
@@ -334,6 +337,17 @@ pub fn run(opts: &Opts, only: Option<Config>) -> i32 {
         }));
     }
     let (code, new) = report("C18", &findings);
+    if let Some(n) = &nondet {
+        // A plan executed twice in one process gave two different event logs. If the oracle also
+        // found violations, the likeliest cause is state the code under test keeps across
+        // threads (exactly what C18 forbids) and the violations stand; otherwise it is the
+        // harness that is broken.
+        if code == 0 {
+            eprintln!("harness error: {}", n);
+            return 2;
+        }
+        println!("note: {} - state surviving across simulated histories", n);
+    }
     let wall = start.elapsed().as_secs_f64();
     let cov = json!({
         "evaluations": evals,
